@@ -2,6 +2,9 @@
 //! Usage: cavh <stream> [--seed N] [--tier quick|thorough] [--drv PATH] [--out FILE] [--replay TEXT]
 mod util;
 mod q1;
+mod sym;
+mod pr;
+mod ev;
 
 use util::*;
 
@@ -33,6 +36,9 @@ fn main() {
     recording_panics();
     let rep = match stream.as_str() {
         "quad1d" => q1::run(&o),
+        "parse" => pr::run_parse(&o),
+        "eval" => ev::run_eval(&o),
+        "lists" => ev::run_lists(&o),
         _ => { eprintln!("unknown stream {}", stream); std::process::exit(2); }
     };
     let js = rep.to_json();
